@@ -10,19 +10,25 @@
 From XV Require Import lib.Bytes lib.Lts gen.SessClose gen.Serve C10.Model C10.Inv C10.Proofs C10.Closers
   C10.Transmit C10.InLock C10.StateLock C10.Progress C10.Deadline C10.Refute C10.Tables C10.Spec.
 
-(* Clause 1.  In every reachable state the wire holds at most one closing tag;
-   it holds exactly one precisely when the OutputStreamClosed bit is set and the
+(* Clause 1.  In every reachable state the closing tag has been handed to the
+   connection at most once (o_att: write ATTEMPTS, whether or not the
+   connection accepted the write) and the wire holds no more tags than that;
+   it has been attempted exactly when the OutputStreamClosed bit is set and the
    tag is no longer owed (closeSession sets the bit under the state lock and
-   writes the tag after releasing it, still under the output lock); and as soon
-   as any Close call, or Serve, has returned it holds exactly one — however many
-   callers there are and however they interleave with each other, with
-   transmitters, with Serve's own shutdown and with sendError. *)
+   writes the tag after releasing it, still under the output lock); unless the
+   connection refuses the tag, attempt and tag on the wire coincide; and as
+   soon as any Close call, or Serve, has returned — with or without the
+   connection's error — the bit is set and the one attempt has been made:
+   closing is final, however many callers there are and however they
+   interleave with each other, with transmitters, with Serve's own shutdown
+   and with sendError. *)
 Theorem C10_one_closing_tag : forall ds ks tr s,
   run step (init ds ks) tr = Some s ->
-  closes (o_wire (s_o s)) <= 1 /\
-  (closes (o_wire (s_o s)) = 1 <-> o_cl (s_o s) = true /\ o_pend (s_o s) = false) /\
+  o_att (s_o s) <= 1 /\ closes (o_wire (s_o s)) <= o_att (s_o s) /\
+  (o_att (s_o s) = 1 <-> o_cl (s_o s) = true /\ o_pend (s_o s) = false) /\
+  (o_wfail (s_o s) = false -> closes (o_wire (s_o s)) = o_att (s_o s)) /\
   (forall i e, (kind_at ks i KClose \/ kind_at ks i KServe) -> returned s i e ->
-     closes (o_wire (s_o s)) = 1).
+     o_cl (s_o s) = true /\ o_att (s_o s) = 1).
 Proof. exact one_closing_tag. Qed.
 Print Assumptions C10_one_closing_tag.
 
@@ -51,17 +57,21 @@ Proof. exact transmit_fails_after_close. Qed.
 Print Assumptions C10_transmit_fails_after_close.
 
 (* Clause 3a.  When Serve has returned, both directions are marked closed, the
-   closing tag is on the wire exactly once, and the return value is the one
-   that belongs to the reason Serve left its loop: nil exactly for the peer's
-   closing tag, the stream error for a received stream error, a time-out error
-   when the read deadline expired, the context's error when the close deadline
-   was noticed at the top of the loop, the output-closed error when a reply was
-   attempted after Close, the handler's / reader's error otherwise. *)
+   closing tag has been attempted exactly once, and the return value is the one
+   that belongs to the reason Serve left its loop (outcome_rel): nil for the
+   peer's closing tag, the stream error for a received stream error, a time-out
+   error when the read deadline expired, the context's error when the close
+   deadline was noticed at the top of the loop, the output-closed error when a
+   reply was attempted after Close, the handler's / reader's error otherwise —
+   or, when the connection refused the closing tag that this Serve had to
+   write, the connection's error.  nil only for the peer's closing tag; and
+   always nil for it unless the connection refused the tag. *)
 Theorem C10_serve_outcomes : forall ds ks tr s i e,
   run step (init ds ks) tr = Some s -> kind_at ks i KServe -> returned s i e ->
-  o_cl (s_o s) = true /\ i_cl (s_i s) = true /\ closes (o_wire (s_o s)) = 1 /\
-  outcome_rel (a_cause (s_a s i)) e /\
-  (e = ENil <-> a_cause (s_a s i) = CPeerClose).
+  o_cl (s_o s) = true /\ i_cl (s_i s) = true /\ o_att (s_o s) = 1 /\
+  outcome_rel' (o_wfail (s_o s)) (a_cause (s_a s i)) e /\
+  (e = ENil -> a_cause (s_a s i) = CPeerClose) /\
+  (o_wfail (s_o s) = false -> a_cause (s_a s i) = CPeerClose -> e = ENil).
 Proof. exact serve_outcomes. Qed.
 Print Assumptions C10_serve_outcomes.
 
@@ -212,7 +222,9 @@ Print Assumptions C10_stream_error_flushed_partial.
    what lets IClose / PClose stand for <close/> on such sessions; and no call
    that can block sits inside a critical section of the state mutex; Serve tells
    the peer's close by err == io.EOF (identity: errors that wrap io.EOF are
-   handler errors) and reads the input context in force at every turn. *)
+   handler errors) and reads the input context in force at every turn;
+   closeSession sets the bit, in the critical section of its test, before it
+   writes the closing element. *)
 Theorem C10_source_tables :
   sc_out_lockers = map str ["Session.Close"; "Session.Encode"; "Session.EncodeElement";
                             "Session.TokenWriter"; "Session.sendError"; "send"]%string /\
@@ -228,6 +240,7 @@ Theorem C10_source_tables :
   (sc_send_records_opening_element = true /\ sc_negotiator_records_ws = true /\
    sc_reader_ws_close_is_eof = true) /\
   sc_statelock_blocking_calls = [] /\
-  (sv_serve_eof_identity = true /\ sc_serve_reads_context_every_turn = true).
+  (sv_serve_eof_identity = true /\ sc_serve_reads_context_every_turn = true) /\
+  sc_closesession_sets_bit_before_write = true.
 Proof. exact source_tables. Qed.
 Print Assumptions C10_source_tables.
